@@ -10,6 +10,7 @@ use vcommon::{
     sim::SimSocket,
     tx::{BufModel, Msg, MsgKind, SendOp, MSG_KINDS, REFUSED_KINDS, STEP},
 };
+use vcommon::tx::ChainState;
 use zlink_core::Connection;
 
 pub const RULE: &str = "cases = histories of 1..40 operations over {enqueue_call, send_call, \
@@ -31,6 +32,11 @@ pub enum TxOp {
     /// times and then abandoned (the future is dropped). The simulated transport takes a write
     /// whole or not at all, so nothing has been written; what was enqueued must stay enqueued.
     FlushAbandoned { polls: u8 },
+    /// `Connection::chain_call(items[0])` followed by `.append(items[i])`; the chain ends at the
+    /// first refused item (which consumes it) or after the last item, and is then sent (`send`:
+    /// one flush; the reply stream is dropped unpolled) or dropped unsent (its accepted calls stay
+    /// enqueued, exactly as if they had been submitted with `enqueue_call`).
+    Chain { items: Vec<Msg>, send: bool },
 }
 
 #[derive(Debug, Clone, Serialize, Deserialize)]
@@ -120,10 +126,32 @@ fn aim(model: &BufModel, base: usize, size: &SizeSpec) -> usize {
     }
 }
 
+/// Does this spec start a chain, and of which length / sent or not? Derived from bits of `opsel`
+/// and `flags` that the other decisions do not use up, so the shape of the drawn value is
+/// unchanged: about one call spec in six starts a chain of 1..=4 calls.
+fn chain_start(s: &OpSpec) -> Option<(usize, bool)> {
+    let c = s.opsel / 12; // 0..=21
+    (c >= 18).then(|| ((c - 17) as usize, s.flags & 32 != 0))
+}
+
 fn resolve(specs: &[OpSpec]) -> Vec<TxOp> {
     let mut model = BufModel::default();
     let mut ops = Vec::with_capacity(specs.len());
+    // chain under construction: items, calls still to come, sent at the end?
+    let mut chain: Option<(Vec<Msg>, usize, bool)> = None;
+    fn close(chain: &mut Option<(Vec<Msg>, usize, bool)>, consumed: bool, ops: &mut Vec<TxOp>, model: &mut BufModel) {
+        if let Some((items, _, send)) = chain.take() {
+            let send = send && !consumed;
+            ops.push(TxOp::Chain { items, send });
+            if send {
+                model.flush();
+            }
+        }
+    }
     for s in specs {
+        if s.flush >= 1 {
+            close(&mut chain, false, &mut ops, &mut model);
+        }
         if s.flush == 1 {
             ops.push(TxOp::Flush);
             model.flush();
@@ -142,10 +170,15 @@ fn resolve(specs: &[OpSpec]) -> Vec<TxOp> {
                 SizeSpec::Span(k, _) => model.free() + STEP * k,
             };
             let op = [SendOp::Enqueue, SendOp::SendCall, SendOp::SendReply, SendOp::SendError][(s.opsel % 4) as usize];
-            ops.push(TxOp::Msg {
-                msg: Msg::Refused { kind: REFUSED_KINDS[r], pad },
-                op,
-            });
+            let msg = Msg::Refused { kind: REFUSED_KINDS[r], pad };
+            if chain.is_some() || chain_start(s).is_some() {
+                // a refused call inside (or at the start of) a chain consumes the chain
+                let c = chain.get_or_insert((Vec::new(), 0, false));
+                c.0.push(msg);
+                close(&mut chain, true, &mut ops, &mut model);
+                continue;
+            }
+            ops.push(TxOp::Msg { msg, op });
             // the model may grow, but only its aim suffers if it is off
             continue;
         }
@@ -155,6 +188,21 @@ fn resolve(specs: &[OpSpec]) -> Vec<TxOp> {
         let n = if Msg::paddable(kind) { aim(&model, base, &s.size) } else { base };
         let msg = Msg::Ok { kind, flags, pad: n - base };
         let choices = kind.ops();
+        if choices.len() == 2 && (chain.is_some() || chain_start(s).is_some()) {
+            if chain.is_none() {
+                let (len, send) = chain_start(s).unwrap();
+                chain = Some((Vec::new(), len, send));
+            }
+            model.enqueue(n);
+            let c = chain.as_mut().unwrap();
+            c.0.push(msg);
+            c.1 = c.1.saturating_sub(1);
+            if c.1 == 0 {
+                close(&mut chain, false, &mut ops, &mut model);
+            }
+            continue;
+        }
+        close(&mut chain, false, &mut ops, &mut model);
         // enqueue twice as likely as send for calls, so that several messages share a write
         let op = if choices.len() == 2 {
             if s.opsel % 3 == 0 { SendOp::SendCall } else { SendOp::Enqueue }
@@ -167,6 +215,7 @@ fn resolve(specs: &[OpSpec]) -> Vec<TxOp> {
         }
         ops.push(TxOp::Msg { msg, op });
     }
+    close(&mut chain, false, &mut ops, &mut model);
     ops
 }
 
@@ -220,6 +269,9 @@ pub struct TxFacts {
     pub free_at_start: Vec<usize>,
     pub max_steps: usize,
     pub abandoned_flush_with_queue: usize,
+    pub chains: usize,
+    pub chain_refused_behind_queue: usize,
+    pub chain_unsent: usize,
 }
 
 /// Expected transport writes for a history, and facts about it (from the aiming model).
@@ -231,8 +283,33 @@ pub fn expected_writes(case: &TxCase) -> (Vec<Vec<u8>>, Vec<bool>, TxFacts) {
     let mut facts = TxFacts::default();
     // per pending write: messages, growth/exact/refusal seen
     let (mut in_write, mut special) = (0usize, false);
+    // a chain is, on the wire, its accepted calls enqueued in order plus (if sent) one flush
+    let mut flat: Vec<(TxOp, bool)> = Vec::new(); // (primitive op, contributes an entry to `accept`)
     for op in &case.ops {
         match op {
+            TxOp::Chain { items, send } => {
+                facts.chains += 1;
+                if !*send && items.iter().all(|m| !m.is_refused()) {
+                    facts.chain_unsent += 1;
+                }
+                for m in items {
+                    flat.push((TxOp::Msg { msg: m.clone(), op: SendOp::Enqueue }, false));
+                }
+                if *send {
+                    flat.push((TxOp::Flush, false));
+                }
+                accept.push(items.iter().all(|m| !m.is_refused()));
+            }
+            other => flat.push((other.clone(), true)),
+        }
+    }
+    let mut accept_out = Vec::new();
+    let mut chain_accept = accept.into_iter();
+    let mut accept: Vec<bool> = Vec::new();
+    for (op, counted) in &flat {
+        let before = accept.len();
+        match op {
+            TxOp::Chain { .. } => unreachable!(),
             TxOp::Flush => {
                 accept.push(true);
                 if !queue.is_empty() {
@@ -289,8 +366,24 @@ pub fn expected_writes(case: &TxCase) -> (Vec<Vec<u8>>, Vec<bool>, TxFacts) {
                 }
             },
         }
+        let _ = before;
+        let verdict = accept.pop().unwrap();
+        if *counted {
+            accept_out.push(verdict);
+        } else if !verdict && in_write >= 1 {
+            facts.chain_refused_behind_queue += 1;
+        }
     }
-    (writes, accept, facts)
+    // interleave: the per-op verdicts in the order of `case.ops`
+    let mut merged = Vec::with_capacity(case.ops.len());
+    let mut plain = accept_out.into_iter();
+    for op in &case.ops {
+        match op {
+            TxOp::Chain { .. } => merged.push(chain_accept.next().unwrap()),
+            _ => merged.push(plain.next().unwrap()),
+        }
+    }
+    (writes, merged, facts)
 }
 
 pub fn run_case(case: &TxCase) -> (Vec<Vec<u8>>, Vec<Result<(), String>>) {
@@ -301,14 +394,36 @@ pub fn run_case(case: &TxCase) -> (Vec<Vec<u8>>, Vec<Result<(), String>>) {
             w.pending_script.push_back(case.wpend[i % case.wpend.len()] as u32);
         }
     }
-    let (_rc, mut wc) = Connection::new(sock).split();
+    let mut conn = Connection::new(sock);
     let mut results = Vec::new();
     for op in &case.ops {
         let r = match op {
-            TxOp::Flush => run_until_ready(wc.flush(), 16),
+            TxOp::Chain { items, send } => {
+                let mut state = Some(ChainState::Start(&mut conn));
+                let mut r = Ok(());
+                for m in items {
+                    match m.chain_step(state.take().unwrap()) {
+                        Ok(ch) => state = Some(ChainState::Going(ch)),
+                        Err(e) => {
+                            r = Err(e);
+                            break;
+                        }
+                    }
+                }
+                match (state, *send) {
+                    (Some(ChainState::Going(ch)), true) => match run_until_ready(ch.send(), 16) {
+                        Some(Ok(_stream)) => Some(r),
+                        Some(Err(e)) => Some(Err(e)),
+                        None => None,
+                    },
+                    _ => Some(r),
+                }
+            }
+            TxOp::Flush => run_until_ready(conn.flush(), 16),
             TxOp::FlushAbandoned { polls } => {
                 handle.write.borrow_mut().pending_script.push_front(1_000_000);
                 let r = {
+                    let wc = conn.write_mut();
                     let fut = wc.flush();
                     let mut fut = std::pin::pin!(fut);
                     let mut r = None;
@@ -324,7 +439,7 @@ pub fn run_case(case: &TxCase) -> (Vec<Vec<u8>>, Vec<Result<(), String>>) {
                 handle.write.borrow_mut().pending_script.pop_front();
                 r
             }
-            TxOp::Msg { msg, op } => run_until_ready(msg.submit(&mut wc, *op), 16),
+            TxOp::Msg { msg, op } => run_until_ready(msg.submit(conn.write_mut(), *op), 16),
         };
         results.push(match r {
             Some(Ok(())) => Ok(()),
@@ -359,6 +474,15 @@ pub fn check_case(case: &TxCase, stats: &mut Stats) -> CaseResult {
     }
     if facts.max_steps >= 3 {
         stats.class("message-spans>=3-steps");
+    }
+    if facts.chains > 0 {
+        stats.class("has-chain");
+    }
+    if facts.chain_refused_behind_queue > 0 {
+        stats.class("chain-call-refused-behind-enqueued-messages");
+    }
+    if facts.chain_unsent > 0 {
+        stats.class("chain-built-and-dropped-unsent");
     }
     if facts.abandoned_flush_with_queue > 0 {
         stats.class("flush-abandoned-with-messages-enqueued");
@@ -428,6 +552,18 @@ fn sample_of(case: &TxCase) -> serde_json::Value {
         .map(|o| match o {
             TxOp::Flush => "flush".to_string(),
             TxOp::FlushAbandoned { polls } => format!("flush(abandoned after {polls} polls)"),
+            TxOp::Chain { items, send } => format!(
+                "chain[{}]{}",
+                items
+                    .iter()
+                    .map(|m| match m {
+                        Msg::Ok { kind, .. } => format!("{kind:?} len={}", m.encoded_len().unwrap_or(0)),
+                        Msg::Refused { kind, pad } => format!("REFUSED {kind:?} pad={pad}"),
+                    })
+                    .collect::<Vec<_>>()
+                    .join(", "),
+                if *send { ".send()" } else { " dropped unsent" }
+            ),
             TxOp::Msg { msg, op } => match msg {
                 Msg::Ok { kind, pad, .. } => format!("{op:?}({kind:?}, len={})", msg.encoded_len().unwrap_or(0) + 0 * pad),
                 Msg::Refused { kind, pad } => format!("{op:?}(REFUSED {kind:?}, pad={pad})"),
